@@ -398,7 +398,9 @@ fn lay_comments(cs: &[String], rng: &mut Rng) -> String {
     // each comment on its own line
     let mut s = String::new();
     for c in cs {
-        s.push_str(&format!("{}#{}{}\n{}", if rng.chance(1, 3) { "\n" } else { "" }, *rng.pick(&["", " ", "  ", "\t"]), c, gap(rng)));
+        // the line ends with LF, CR LF or a lone CR (all three end a comment in the Varlink grammar)
+        let eol = match rng.below(10) { 0..=5 => "\n", 6..=8 => "\r\n", _ => "\r" };
+        s.push_str(&format!("{}#{}{}{eol}{}", if rng.chance(1, 3) { "\n" } else { "" }, *rng.pick(&["", " ", "  ", "\t"]), c, gap(rng)));
     }
     s
 }
@@ -476,7 +478,7 @@ fn mutate(b: &[u8], rng: &mut Rng) -> Vec<u8> {
         }
         2 => {
             let i = rng.below(m.len());
-            m[i] = *rng.pick(b",:()?[]#\n x-._\xC3");
+            m[i] = *rng.pick(b",:()?[]#\n\r x-._\xC3");
         }
         3 => {
             let i = rng.below(m.len());
